@@ -16,13 +16,13 @@ GEN     Gen_Compress (vectors checked against the spec itself: StreamOf(EncMsg(m
         puts a first occurrence at 16382..16385).  Reverse direction in the same run: the spec's hand-compressed octets (pointer from
         every RDATA name to the question name) -> real Unpack must accept and read the vector's message.
 TV      harness `compress record`: random messages from the record zoo (about 85 types x 16 owner families, mixed case, escapes),
-        small (1-12 records: also walked by TLC itself, walker cross-check) and big (100-400 records, most beyond 16384 octets):
+        small (1-12 records: also walked by TLC itself, walker cross-check) and big (150-600 records, about half beyond 16384 octets even compressed):
         part streams -> Trace_Compress (JudgeStreams with MaxOff = 16384).  Informational: len(bytesC) against PackImpl over the plan
         read off the stream; deviations are counted in the evidence notes (packimpl_deviation*), never a verdict.
 Ill-formed streams, a walker that disagrees with TLC's own walk, judges that disagree, a bytesU that is not the vector's message:
         vp.Infra (exit 2).
 
-Finding keys: compress/<clause>:<TYPE|question>  (clauses: not-transparent, longer, header-differs, pointer-when-compress-off,
+Finding keys: compress/<clause>:<question|owner|rdata:TYPE>  (clauses: not-transparent, longer, header-differs, pointer-when-compress-off,
         pointer-in-uncompressible-rdata, pointer-target-beyond-limit, pointer-not-backwards, pointer-not-to-a-name-suffix, name-invalid),
         compress/compressed-unreadable:<types>, compress/pack-error:<types>, compress/input-rejected|input-misread|input-panic:<TYPE>.
 
@@ -53,12 +53,12 @@ def mnemonics(lay):
     return tab
 
 
-def judge(ctx, evpath, names, tag, notes=True):
+def judge(ctx, evpath, names, tag, notes=True, small=SMALL):
     """Trace_Compress over an event file; returns the list of (event, key)."""
     evs = vp.read_ndjson(evpath)
     if not evs:
         return []
-    tr = ctx.tlc_trace("Trace_Compress", evpath, xmx="4g", timeout=3000, consts={"Small": SMALL})
+    tr = ctx.tlc_trace("Trace_Compress", evpath, xmx="4g", timeout=3000, consts={"Small": small})
     if tr.hwm != len(evs):
         raise vp.Infra("Trace_Compress consumed %s of %d events of %s" % (tr.hwm, len(evs), evpath))
     ill = json.loads(tr.vals.get("ill", "[]"))
@@ -76,9 +76,9 @@ def judge(ctx, evpath, names, tag, notes=True):
             if impl and "packimpl_deviation_sample" not in ctx.notes:
                 i, got, pred = impl[0]
                 ctx.notes["packimpl_deviation_sample"] = {"where": tag, "g": evs[i - 1]["g"], "v": evs[i - 1]["v"], "len_packed": got, "packimpl": pred}
-    for i, st, t in stages:
+    for i, st, pos, t in stages:
         e = evs[i - 1]
-        where = "question" if t == 0 else names.get(t, "TYPE%d" % t) if t > 0 else e.get("key", "?")
+        where = pos + ":" + names.get(t, "TYPE%d" % t) if pos == "rdata" else pos
         out.append((e, "compress/%s:%s" % (st, where)))
     return out
 
@@ -104,7 +104,8 @@ def gen(ctx, binp, lay, names, mode, tier, nshards, shard):
     with vp._lock:
         ctx.notes.setdefault("vectors_per_mode", {})
         ctx.notes["vectors_per_mode"][mode] = ctx.notes["vectors_per_mode"].get(mode, 0) + s["notes"].get("events", 0)
-    for e, key in judge(ctx, ev, names, "%s/%d" % (mode, shard)):
+    # the padded messages have few names: TLC walks their 16 kB itself as well (walker cross-check beyond offset 16384)
+    for e, key in judge(ctx, ev, names, "%s/%d" % (mode, shard), small=20000 if mode == "pad" else SMALL):
         ctx.candidate(key, "packed with Compress = true against Compress = false: the specification's judge says " + key.split("/")[1],
                       {"event": brief(e), "mode": mode, "tier": tier})
 
@@ -173,8 +174,8 @@ def run(ctx):
         jobs += [lambda k=k: rec(ctx, binp, lay, names, 8, True, 10 + k) for k in range(3)]
     else:
         jobs = [lambda: mc(ctx, 1, 3)]
-        fam = 40
-        jobs += [lambda sh=sh: gen(ctx, binp, lay, names, "family", 1, fam, sh) for sh in range(ctx.seed % 2, fam, 2)][:16]
+        fam = 720
+        jobs += [lambda sh=sh: gen(ctx, binp, lay, names, "family", 1, fam, sh) for sh in [(ctx.seed * 16 + j) % fam for j in range(16)]]
         jobs += [lambda sh=sh: gen(ctx, binp, lay, names, "multiq", 1, 2, sh) for sh in range(2)]
         jobs += [lambda: gen(ctx, binp, lay, names, "types", 1, 1, 0),
                  lambda: gen(ctx, binp, lay, names, "pad", 1, 1, 0)]
@@ -193,7 +194,7 @@ def run(ctx):
     ]
     return ctx.finish(rule="vectors: name families with shared suffixes, case and escape variants (sampled by shard), multiple questions, every type "
                       "with a name field x {equal to, one label below} an earlier owner, first occurrences at 16382..16385; events: random zoo "
-                      "messages, small and 100-400 records. distinct_nontrivial = messages the library actually compressed",
+                      "messages, small and 150-600 records. distinct_nontrivial = messages the library actually compressed",
                       confirm=lambda c: reexecute(ctx, binp, lay, names, c))
 
 
